@@ -315,8 +315,8 @@ func c03Families(tier string) []engine.Family {
 	})
 	var keep []engine.Family
 	for _, f := range ed {
-		if f.Name == "json-int-boundaries" {
-			continue // 1 320 near-identical digit strings add nothing to the edit neighbourhood
+		if f.Name == "json-int-boundaries" || f.Name == "ubj-noop-insertions" {
+			continue // 1 320 near-identical digit strings / single-byte insertions into documents that are edited anyway add nothing to the edit neighbourhood
 		}
 		f.Name += "-edits"
 		keep = append(keep, f)
